@@ -1147,7 +1147,12 @@ where
         let mut safe = self.safe.write().await;
         if let None = safe.active_blob {
             let blob_opt = safe.blobs.write().await.pop();
-            if let Some(blob) = blob_opt {
+            if let Some(mut blob) = blob_opt {
+                // Active blob accepts new records, so its index must be held in memory
+                if let Err(e) = blob.load_index().await {
+                    safe.blobs.write().await.push(blob).await;
+                    return Err(e);
+                }
                 safe.active_blob = Some(Box::new(ASRwLock::new(blob)));
                 Ok(())
             } else {
